@@ -153,6 +153,49 @@ Section LapModel.
     : lres (list triplet * list F) :=
     compute_laplacian_k kreq n (search kreq).
 
+  (* regression variant (seeded change C09_4, NOT the shipped code):
+         ScalarType heat = exp(-distance * distance / width);
+         if (heat == 0.0) break;          // "the neighbours are ordered by distance, the rest vanish too"
+     the rest of the sample's list is not looked at once a weight is exactly zero.  `isz` is the test
+     `heat == 0.0`; the flag says that the inner loop has been left. *)
+  Definition edge_step_brk (isz : F -> bool) (i : nat) (cur : list nat)
+             (acc : lres lstate * bool) (j : nat) : lres lstate * bool :=
+    let '(a, stopped) := acc in
+    if stopped then (a, true) else
+    match a with
+    | LOOB s x y => (LOOB s x y, false)
+    | LOk st =>
+        match nth_error cur j with
+        | None => (LOOB 2 j (length cur), false)
+        | Some nb =>
+            if isz (heat_of i nb) then (LOk st, true)
+            else (edge_step i cur (LOk st) j, false)
+        end
+    end.
+
+  Definition row_step_brk (isz : F -> bool) (k : nat) (nbrs : list (list nat)) (acc : lres lstate) (i : nat)
+    : lres lstate :=
+    match acc with
+    | LOOB s a b => LOOB s a b
+    | LOk st =>
+        match nth_error nbrs i with
+        | None => LOOB 1 i (length nbrs)
+        | Some cur => fst (fold_left (edge_step_brk isz i cur) (seq 0 k) (LOk st, false))
+        end
+    end.
+
+  Definition compute_laplacian_brk (isz : F -> bool) (n : nat) (nbrs : list (list nat))
+    : lres (list triplet * list F) :=
+    match nbrs with
+    | [] => LOOB 0 0 0
+    | first :: _ =>
+        let k := length first in
+        match fold_left (row_step_brk isz k nbrs) (seq 0 n) (LOk (mk_lstate (repeat 0 n) [])) with
+        | LOOB s a b => LOOB s a b
+        | LOk st => LOk (st_T st ++ diag_triplets n (st_D st), st_D st)
+        end
+    end.
+
   (* what the harness observes: the dense n x n table of the sparse matrix and D *)
   Definition laplacian_dense (n : nat) (nbrs : list (list nat))
     : lres (list (list F) * list F) :=
